@@ -246,7 +246,9 @@ def verify_row(F, fn_, kind):
         pushes = [t for g in [f] for b, t in g.calls(r"^std::vec::Vec::push$")]
         return ok and not pushes, f"collect targets: {[t.get('gen', [])[-1][:60] for t in cs]}"
     if kind == "keyed":
-        ks = [t for g in allf for b, t in g.calls(r"^std::collections::HashMap::(insert|entry)$|HostnameFilterBin::(insert|insert_procedural_action_filter)$")]
+        # nested helper functions of the conversion (fn push_rule(db, hash, ..) { db.entry(*hash)... }) count as its body
+        nested = [g for n, g in F.fns.items() if n.startswith(fn_ + "::") and g not in allf]
+        ks = [t for g in allf + nested for b, t in g.calls(r"^std::collections::HashMap::(insert|entry)$|HostnameFilterBin::(insert|insert_procedural_action_filter)$")]
         ok = bool(ks)
         # no Vec::push directly in the function body onto a Vec that outlives the loop iteration
         # (pushes inside and_modify closures target the map's value under the iterated key)
